@@ -176,6 +176,9 @@ func Implies(a, b bool) bool { return !a || b }
 
 // Unwind raises the loop bound of repository code for the rest of the path (symbolic run only).
 func Unwind(n int)                  {}
+// DistinctUUIDs: the executor stops treating draws of the random source as arbitrary (possibly colliding) values and
+// hands out fixed pairwise distinct ones — an assumption of the harness that calls it (natively: real draws).
+func DistinctUUIDs()                 {}
 func MapOrder(symbolic bool)        {}
 func Sched(budget int, explore bool) {}
 func SelectChoice(on bool)          {}
